@@ -125,6 +125,8 @@ def explore(ctx, depth):
                 const0 = constants()
                 hist = []
                 raised = False
+                firsts = []
+                completed = False
                 for desc, fn in ops:
                     hist.append(desc)
                     try:
@@ -132,6 +134,7 @@ def explore(ctx, depth):
                     except ArgumentMutated as e:
                         ctx.fail({'text': case.text, 'history': list(hist), 'clause': 'arguments unchanged'}, str(e))
                         break
+                    firsts.append(r)
                     raised |= 'err' in r
                     fresh = kp.loads(case.text)[0]
                     r2 = call(lambda: fn(fresh))
@@ -150,6 +153,26 @@ def explore(ctx, depth):
                         ctx.fail({**inp, 'clause': 'shared defaults unchanged'}, 'a read-only call modified a module constant or the default options',
                                  impl=[k for k in c1 if c1[k] != const0[k]])
                         break
+                else:
+                    completed = True
+                if completed:
+                    # second pass: the same calls again, after the whole history, on the same document AND on a fresh import: each must give
+                    # what it gave the first time (a fresh import in the same process shares every module-level cache, so "same as on a fresh
+                    # import" alone cannot see state that lives in the library rather than in the document)
+                    fresh2 = kp.loads(case.text)[0]
+                    for k, (desc, fn) in enumerate(ops):
+                        if desc.startswith('next('):
+                            continue
+                        try:
+                            again = call(lambda: fn(doc))
+                            again_fresh = call(lambda: fn(fresh2))
+                        except ArgumentMutated:
+                            continue
+                        if again != firsts[k] or again_fresh != firsts[k]:
+                            ctx.fail({'text': case.text, 'history': list(hist), 'repeated_call': desc, 'clause': 'the same call later in the same process'},
+                                     'a call gives another result when it is repeated after other read-only calls (on the same document or on a fresh import)',
+                                     impl=_clip(again if again != firsts[k] else again_fresh), expected=_clip(firsts[k]))
+                            break
                 ctx.count('histories')
             # two imports are indistinguishable
             a, b = kp.loads(case.text)[0], kp.loads(case.text)[0]
